@@ -394,6 +394,25 @@ def gen_history(rng, c, prof):
 
 # ---------------------------------------------------------------- execution
 
+def velocity_failure(c, gl):
+    """index of the first operation whose output has a Note On with another velocity than the configured one, on the press of
+    a note key of an accepted configuration; None if there is none"""
+    if not c.meta.get("accepted", True) or not c.cfg or not c.cfg[0].startswith("cfg.begin"):
+        return None
+    vel = int(c.cfg[0].split()[6])
+    if not 1 <= vel <= 127:
+        return None
+    acts = {l.split()[1] for l in c.cfg if l.startswith("cfg.action ")}
+    for k, e in enumerate(c.events):
+        t = e.split()
+        if t[0] != "key" or t[3] != "1" or t[2] in acts or 1 + k >= len(gl):
+            continue
+        for tok in gl[1 + k].partition("|")[0].split():
+            if len(tok) == 6 and tok[0] == "9" and int(tok[4:6], 16) != vel:
+                return 1 + k
+    return None
+
+
 DEV_PROPS = ["C01", "C02", "C03", "C04", "C05", "C06", "C07", "C08", "C13", "C14"]
 
 
@@ -492,6 +511,16 @@ def execute(cases, binary, workdir, tag="dev", jobs=8):
             ch = next((k for k, l in enumerate(gl) if "CHANGED-AFTER-SENT" in l), None)
             if ch is not None:
                 extra = " ".join("%s:%d:message-changed-after-it-was-sent" % (q, ch) for q in DEV_PROPS)
+                if mon.startswith("mon impl="):
+                    head, _, rest = mon.partition(" ; ")
+                    mon = head + (" " if head != "mon impl=" else "") + extra + " ; " + rest
+                else:
+                    mon = "mon impl=" + extra + " ; model="
+            # C04, "with the configured velocity" (theorem C04_velocity): every Note On that the press of a note key produces —
+            # also the one that follows the Note Off of an interrupted note — carries the configured velocity
+            vfail = velocity_failure(c, gl)
+            if vfail is not None:
+                extra = "C04:%d:note-on-velocity" % vfail
                 if mon.startswith("mon impl="):
                     head, _, rest = mon.partition(" ; ")
                     mon = head + (" " if head != "mon impl=" else "") + extra + " ; " + rest
